@@ -39,6 +39,7 @@ class Contract:
         self.local_sorts = kw.pop("local_sorts", {})
         self.ghost_init = kw.pop("ghost_init", None)
         self.ghost_vars = kw.pop("ghost_vars", [])
+        self.only_in = kw.pop("only_in", None)  # a virtual contract that is only used while verifying the listed functions
         self.virtual = kw.pop("virtual", False)  # contract of a base-class method that every override must satisfy (no dispatch fork at call sites)
         self.covers = kw.pop("covers", [])  # conditions that must each be satisfiable together with `requires` (non-vacuity)
         self.logical = kw.pop("logical", {})  # universally quantified logical variables (theorem contracts; not usable at call sites)
